@@ -33,6 +33,16 @@ def near(rng, fmt, kind):
         u = G.near_one(rng, fmt, rng.randint(1, 9))          # inside / just outside the 4-ulp vacuity band
         rest = G.round_fmt(fmt, 1.0 - u)
         return [rest, 0.0, u, float(Fr(rng.randint(0, 8), 8))]
+    if kind == "nvac" and rng.random() < 0.4:
+        # tiny masses at their own (fine) resolution, u = fl(1 - (b + d)) at the coarse resolution below 1: b + d and 1 - u then
+        # differ by up to eps/2 absolutely, i.e. by per cents of either (seeded C13_r4A: confidence weights taken from b + d
+        # in the binomial operator, from 1 - u in the multinomial one); b + d + u = 1 within eps/2, accepted by the constructors
+        s = 10.0 ** (-rng.uniform(3, 15.5 if fmt == "f64" else 6.8))
+        b = G.round_fmt(fmt, s * rng.random())
+        d = G.round_fmt(fmt, s - b)
+        u = G.round_fmt(fmt, 1.0 - (b + d))
+        if u < 1.0 - 4 * e:
+            return [b, d, u, float(Fr(rng.randint(0, 8), 8))]
     if kind == "nvac":
         u = G.round_fmt(fmt, 1.0 - 10.0 ** (-rng.uniform(3, 15 if fmt == "f64" else 6.5)))
     else:
